@@ -184,7 +184,9 @@ class StrSchema(Schema[StrProps]):
 
         try:
             re.compile(pattern)
-        except re.error as e:
+        except (re.error, OverflowError, RecursionError) as e:
+            # re.compile() reports a repeat count beyond its limit with OverflowError and
+            # groups nested too deeply with RecursionError
             message = f"Invalid pattern ({e})"
             raise DeclarationError(message) from None
 
